@@ -12,11 +12,13 @@ import (
 	"bytes"
 	"fmt"
 	"runtime"
+	"runtime/debug"
 	"strconv"
 	"strings"
 	"sync"
 	"sync/atomic"
 	"testing"
+	"testing/synctest"
 	"time"
 
 	"github.com/centrifugal/protocol"
@@ -435,6 +437,26 @@ func vfC12QRun(initCap int, steps []vfC12QStep, stt *vfC12QStats) (verdict strin
 	return ""
 }
 
+
+// vfC12QBubble is vfBubble with the two GC cycles made optional: they are only needed when the code under test
+// returned bubble-bound timers to the internal/timers sync.Pool, and forced GCs dominate the cost of a case.
+func vfC12QBubble(t *testing.T, gc bool, f func() string) string {
+	var out string
+	synctest.Test(t, func(st *testing.T) {
+		defer func() {
+			if r := recover(); r != nil {
+				out = fmt.Sprintf("PANIC: %v\n%s", r, debug.Stack())
+			}
+		}()
+		out = f()
+	})
+	if gc {
+		runtime.GC()
+		runtime.GC()
+	}
+	return out
+}
+
 func TestVF_C12_Queue(t *testing.T) {
 	vfCheck(t, "C12", func(rt *rapid.T, c *vfCase) string {
 		initCap := rapid.SampledFrom([]int{1, 2, 2, 3, 4, 5, 8, 16}).Draw(rt, "initCap")
@@ -448,7 +470,7 @@ func TestVF_C12_Queue(t *testing.T) {
 		c.Describe(sb.String())
 
 		var stt vfC12QStats
-		msg := vfBubble(t, func() string { return vfC12QRun(initCap, steps, &stt) })
+		msg := vfC12QBubble(t, false, func() string { return vfC12QRun(initCap, steps, &stt) }) // the queue never pools timers
 
 		c.Label("part=queue")
 		if stt.grow > 0 {
